@@ -97,7 +97,7 @@ prop("C06", quick={"runs": 8000}, thorough={"runs": 100000000, "budget_s": 600},
      rules=["C06.R1 final store TTL = reference fold", "C06.R2 stale re-store uses UpdateTTL", "C06.R3 caller context TTL after Get",
             "C06.R4 background build context: no Err, no deadline, Done never fires, values visible", "C06.R5 SkipRead rebuilds and stores"],
      probes=["builder_communicated_ttl", "background_build_ctx_observed", "background_build_with_cancelled_caller_ctx",
-             "stale_refresh_write", "lone_skipread_get"])
+             "stale_refresh_write", "lone_skipread_get", "shared_request_context"])
 
 BE_RULE = ("Backend scenarios (keys incl. empty, 1-byte, 300-byte, binary, common-prefix and constructed xxhash64 collision "
            "families; unique value tokens; TTL modes default / unlimited / per-call positive / negative; SkipRead) are drawn from the "
